@@ -109,7 +109,7 @@ rc::Gen<fcase_t> gen_fcase()
                                const auto proto = nano::function_t::all().get(id);
                                const auto fun   = proto ? proto->make(dims, summands) : nano::rfunction_t{};
                                const auto n     = fun ? static_cast<size_t>(fun->size()) : static_cast<size_t>(dims);
-                               return rc::gen::map(c06::gen_material(n, 120),
+                               return rc::gen::map(c06::gen_material(n, 200),
                                                    [=](c06::material_t m)
                                                    {
                                                        fcase_t c;
@@ -220,7 +220,7 @@ rc::Gen<ccase_t> gen_ccase()
                 rc::gen::tuple(gen::range<int>(0, dims - 1), gen::range<int>(0, 4), gen::range<int>(1, dims),
                                rc::gen::oneOf(gen::sym(5.0), gen::smallint(-2, 2), gen::logu(1e-3, 1e3)), gen::logu(1e-6, 10.0),
                                gen::logu(1e-3, 1e3), rc::gen::oneOf(gen::vec(static_cast<size_t>(dims), 3.0), gen::vec(static_cast<size_t>(dims), 0.0)),
-                               gen::vec(nn, 1.0), c06::gen_material(n, 80)),
+                               gen::vec(nn, 1.0), c06::gen_material(n, 100)),
                 [=](const std::tuple<int, int, int, double, double, double, vec_t, vec_t, c06::material_t>& u)
                 {
                     ccase_t c;
@@ -441,7 +441,7 @@ rc::Gen<scase_t> gen_scase()
                                gen::vec(static_cast<size_t>(samples * params), 3.0),
                                rc::gen::oneOf(gen::vec(static_cast<size_t>(samples), 10.0),
                                               rc::gen::container<vec_t>(static_cast<size_t>(samples), gen::smallint(-2, 2))),
-                               gen::vec(msize, 2.0), c06::gen_material(n, 80)),
+                               gen::vec(msize, 2.0), c06::gen_material(n, 100)),
                 [=](const std::tuple<std::string, double, vec_t, vec_t, vec_t, c06::material_t>& u)
                 {
                     scase_t c;
